@@ -134,6 +134,18 @@ func (cr *coreRun) finalChecks() {
 	for _, b := range w.scanFreed(cr.node.sl) {
 		w.violate("C17", "freed_reachable", "%s", b)
 	}
+	var mems []*MemWaiterServerProtocol
+	for _, c := range cr.clients {
+		if mc, ok := c.(*memClient); ok && mc != nil {
+			mems = append(mems, mc.p)
+		}
+	}
+	for i, b := range w.scanCommandPools(cr.node, mems) {
+		if i < 3 {
+			w.violate("C17", "command_object_pooled_twice_or_in_use", "after drain: %s", b)
+		}
+	}
+	w.probe("command_pools_scanned")
 }
 
 func replyResults(r *ReqRec) []string {
